@@ -34,6 +34,17 @@ def handle (args : List String) : String :=
           | _, none => "bad-query"
         | _ => "bad-query"
       if qs == "-" then "-" else ";".intercalate ((qs.splitOn ";").map one)
+  | ["lig", as, qs] =>
+    -- atoms carry their SYBYL type in the name field; qs: comma-separated atom indices -> class name (hex) or `-`
+    match (if as == "-" then some [] else (as.splitOn ";").mapM parseAtom), (if qs == "-" then some [] else (qs.splitOn ",").mapM (·.toNat?)) with
+    | some atoms, some qs =>
+      let aarr := atoms.toArray
+      let atab : Tab AtomT := ⟨aarr.size, fun i => ((aarr[i]?).map (·.t)).getD default⟩
+      let sy : Nat → String := fun a => (atab.get a).name
+      if qs.isEmpty then "-" else ";".intercalate (qs.map fun a => match ligandClass atab sy a with
+        | some c => tohexS c
+        | none => "-")
+    | _, _ => "bad-op"
   | ["cov", as, maxb, gs] =>
     -- gs: ;-separated per group `atom index|titratable 0/1`; atoms carry their SYBYL type in the name field of the scoring format
     match (if as == "-" then some [] else (as.splitOn ";").mapM parseAtom), maxb.toNat?,
